@@ -145,7 +145,7 @@ def roots_ens(cs):
 
 
 def units(ctx):
-    u = Unit("C14", "roots", preludes=("real", "stdx", "cx"), cfg=cfg())
+    u = Unit("C14", "roots", preludes=("real", "stdx", "cx", "cxdiv"), cfg=cfg())
     u.crate_attrs = []
     u.item(PFILE, "struct", "Polynomial")
     u.spec("".join(l.verus_stub() for l in NRA_LEMMAS))
@@ -217,7 +217,7 @@ impl Polynomial {
 
 
 def real_unit():
-    u = Unit("C14", "roots_real", preludes=("real", "stdx", "cx"), cfg=cfg_real())
+    u = Unit("C14", "roots_real", preludes=("real", "stdx", "cx", "cxdiv"), cfg=cfg_real())
     u.crate_attrs = []
     u.item(PFILE, "struct", "Polynomial")
     u.spec("".join(l.verus_stub() for l in NRA_LEMMAS))
